@@ -20,42 +20,36 @@ MCTypeOptSet(k) ==
             n \in {"default", "off", "on", "custom"}, d \in {"default", "true", "false"} }
   ELSE { [DefOpts EXCEPT !.traits = <<"Debug">>, !.dname = n] : n \in {"default", "on", "custom"} }
 
-\* at most one rich variant per enum (any position); the others are plain
-IsRichVar(var) ==
-  \/ var.dname # "default" \/ var.dnf # "default" \/ Len(var.fields) >= 2
-  \/ \E i \in DOMAIN var.fields : var.fields[i].dbg # Own \/ var.fields[i].key # ""
-EarlierRich(c) == \E v \in 1..(NVariants(c) - 1) : IsRichVar(c.variants[v])
-
-MCVarOptSet(c) ==
-  IF c.kind = "struct" THEN { [DefVariant EXCEPT !.style = s] : s \in Styles }
-  ELSE IF EarlierRich(c) THEN { [DefVariant EXCEPT !.style = s] : s \in {"unit", "tuple"} }
-  ELSE { [DefVariant EXCEPT !.style = s, !.dname = n, !.dnf = d] :
-           s \in Styles, n \in {"default", "off", "custom"}, d \in {"default", "true", "false"} }
-
-FullFields == { [DefField EXCEPT !.dbg = t, !.key = k] : t \in Treatments, k \in {"", "k"} }
-MCFieldSet(c) ==
-  IF NVariants(c) = 0 THEN {}
-  ELSE LET lv == Last(c.variants) IN
-    IF c.kind = "enum" /\ EarlierRich(c) THEN (IF Len(lv.fields) < 1 THEN {DefField} ELSE {})
-    ELSE IF c.kind = "enum" /\ Len(lv.fields) >= 1
-         THEN { [DefField EXCEPT !.dbg = t] : t \in EnumSecondField }
-         ELSE FullFields
-
-\* number of settings that deviate from the default: bounding it by t explores
-\* every interaction of up to t settings (t-way coverage) instead of the full
-\* cross product; the thorough instance leaves it unbounded
+\* Both variants of an enum may carry settings (what one variant leaves behind in the handler's loop only shows in the
+\* next one); the space is kept small by the deviation budget, applied while the configuration is built.
 B2N(b) == IF b THEN 1 ELSE 0
 \* all settings of one field count as one deviation (so that a field with both a rename and a method still
-\* fits next to one more setting elsewhere)
+\* fits next to one more setting elsewhere); likewise the settings of one variant, and the type's
 FieldDev(f) == B2N(f.dbg # Own \/ f.key # "")
 RECURSIVE FieldsDev(_)
 FieldsDev(fs) == IF fs = <<>> THEN 0 ELSE FieldDev(Head(fs)) + FieldsDev(Tail(fs))
-\* likewise the settings of one variant (its name and its named_field) are one deviation, and so are the type's
 VarDev(var) == B2N(var.dname # "default" \/ var.dnf # "default") + FieldsDev(var.fields)
 RECURSIVE VarsDev(_)
 VarsDev(vs) == IF vs = <<>> THEN 0 ELSE VarDev(Head(vs)) + VarsDev(Tail(vs))
 Deviations(c) == B2N(c.opts.dname # "default" \/ c.opts.dnf # "default") + VarsDev(c.variants)
 
+MCVarOptSet(c) ==
+  IF c.kind = "struct" THEN { [DefVariant EXCEPT !.style = s] : s \in Styles }
+  ELSE { vo \in { [DefVariant EXCEPT !.style = s, !.dname = n, !.dnf = d] :
+                    s \in Styles, n \in {"default", "off", "custom"}, d \in {"default", "true", "false"} } :
+           Deviations(c) + VarDev(vo) <= MaxDeviations }
+
+FullFields == { [DefField EXCEPT !.dbg = t, !.key = k] : t \in Treatments, k \in {"", "k"} }
+MCFieldSet(c) ==
+  IF NVariants(c) = 0 THEN {}
+  ELSE LET lv == Last(c.variants)
+           offer == IF c.kind = "enum" /\ Len(lv.fields) >= 1
+                    THEN { [DefField EXCEPT !.dbg = t] : t \in EnumSecondField }
+                    ELSE FullFields
+       IN { f \in offer : Deviations(c) + FieldDev(f) <= MaxDeviations }
+
+\* bounding the number of settings that deviate from the default by t explores every interaction of up to t settings
+\* (t-way coverage) instead of the full cross product
 MCBoundOK(c) ==
   /\ NVariants(c) >= 1
   /\ Deviations(c) <= MaxDeviations
